@@ -75,9 +75,15 @@ def run(chk, program, tier):
                  ('WF-CSUM', 'checksum position, coverage, reduction'), ('WF-LINE', 'Yacht Devices line shape'), ('WF-ACT', 'Actisense token layout'), ('ID-USE', 'writers build the identifier of the message they write'), ('FP-LEN', 'fast-packet frames have 1..8 bytes'), ('FP-COUNT', 'frames carry the payload once, in order'), ('FP-HDR', 'frame header bytes'), ('FP-SEQ', 'sequence counter'), ('SER-DELIVER', 'serial receive path hands every complete 20-byte window to the decoder'),
                  ('BUF-PROGRESS', 'serial receive path removes exactly the processed window'), ('SER-CONST', 'serial marker / length constants agree with the encoder')):
         chk.rule(r, t)
-    # the identifier each writer puts on the wire is that of the message being written (C05 ID-USE)
+    # the identifier each writer puts on the wire is that of the message being written (C05 ID-USE), and build / parse are inverse (C05 ID-PARSE / ID-BUILD)
     from . import c05
+    from .c16 import _Sub as _Sub0
+    chk.rule('ID-PARSE', 'parse(build(x)) = x per bit (C05)'); chk.rule('ID-BUILD', 'build(parse(id)) = id (C05)')
     c05.id_use(chk, program)
+    try:
+        c05._run(_Sub0(chk, {'ID-PARSE', 'ID-BUILD'}), program, tier)
+    except (B.Top, B.NeedBranch, AnalysisError) as t:
+        chk.unknown('ID-PARSE', 'header functions', str(t), DEC, 0)
     feas = feasible_lengths(program)
     chk.unit('feasible_data_lengths', feas)
     bad13 = None
